@@ -182,7 +182,7 @@ func (t *Queue[T]) Poll(waitIfEmpty bool) T {
 		t.heapMutex.Unlock()
 
 		timer := time.NewTimer(time.Until(time.Time(polledElement.Key)))
-		verifPollHook(time.Time(polledElement.Key))
+		verifPollHook(t, time.Time(polledElement.Key))
 
 		// wait for the return value to become due
 		select {
